@@ -9,6 +9,18 @@ TRUST = ("TLC 1.8 + CommunityModules; CPython 3.12 asyncio semantics under the d
          "aiohttp code paths only (no C extensions are built in this tree)")
 
 CHECKS = {
+ "C07": dict(
+   technique="Implementation-shaped TLA+ model of BaseConnector (ClientPool.tla) checked exhaustively by TLC over all "
+             "interleavings of 3-4 callers/2 endpoints with cancels, failures, peer closes and close(); TLC-simulated "
+             "behaviours replayed handle-by-handle into the real BaseConnector; all recorded executions (replays + random "
+             "schedules incl. connect timeouts) judged by the TLC trace monitor ClientPoolTrace.tla",
+   text="Exhaustive bounded model checking of the pool protocol (limits, accounting, no lost wake-up, no leak, close fails "
+        "all waiters) plus two-way conformance: model behaviours are forced on the real connector one ready handle at a "
+        "time with the projected state compared after every action, and every real execution is validated by TLC against "
+        "an observational monitor of the same properties.",
+   design_ref="DESIGN.md §4 C07",
+   note="connection attempts succeed/fail when the harness says so; observations are taken from outside the connector; "
+        "connect() on an already closed connector and TraceConfig awaits are outside the model; " + TRUST),
  "C08": dict(
    technique="TLA+ reference machine (StreamReader.tla) model-checked with TLC over all producer/consumer interleavings; "
              "TLC-simulated behaviours replayed into the real StreamReader and recorded executions (replays + random) "
